@@ -328,7 +328,7 @@ func expectC13(s SetSpec, limit int, known map[string]bool, noPlugin map[string]
 			if ld.IsKey && o.Val.Text() != o.Path[len(o.Path)-2].Keys[ld.Attr()] {
 				return fmt.Sprintf("key leaf %s contradicts its key", o.Path), nil, nil
 			}
-			resolved = append(resolved, model.Op{Kind: "update", Target: o.Target, Path: o.Path, Val: o.Val})
+			resolved = append(resolved, model.Op{Kind: o.Kind, Target: o.Target, Path: o.Path, Val: o.Val})
 		}
 	}
 	if limit > 0 {
@@ -502,12 +502,18 @@ func runC13(c C13Case, x *vstat.Ctx) error {
 	}
 	// the stored transaction's change keys must be exactly the resolved (target, prefix+path) set
 	want := map[string]string{}
-	for _, o := range resolved {
-		k := o.Target + ":" + o.Path.String()
-		if o.Kind == "delete" {
-			want[k] = "delete"
-		} else if want[k] != "delete" {
-			want[k] = "update " + o.Val.Key()
+	// gNMI order inside one request: deletes, then replaces, then updates (an update of a leaf overrides a
+	// replace of the same leaf, whatever the order in which the lists name them)
+	for _, kind := range []string{"delete", "replace", "update"} {
+		for _, o := range resolved {
+			k := o.Target + ":" + o.Path.String()
+			switch {
+			case o.Kind != kind:
+			case kind == "delete":
+				want[k] = "delete"
+			case want[k] != "delete":
+				want[k] = "update " + o.Val.Key()
+			}
 		}
 	}
 	got := map[string]string{}
